@@ -20,6 +20,14 @@ class Opaque:
         return 'Opaque(%s)' % self.why
 
 
+class PyRaise(Exception):
+    """the interpreted code raises here (e.g. an ordering comparison of None with a number: TypeError)"""
+
+    def __init__(self, exc):
+        Exception.__init__(self, exc)
+        self.exc = exc
+
+
 class Outcome:
     def __init__(self, kind, value, env, facts, line):
         self.kind, self.value, self.env, self.facts, self.line = kind, value, env, facts, line
@@ -192,6 +200,8 @@ class Interp:
         return out
 
     def cmp(self, l, op, r, facts, node=None):
+        if isinstance(op, (ast.Lt, ast.LtE, ast.Gt, ast.GtE)) and ((l is None and isinstance(r, Aff)) or (r is None and isinstance(l, Aff))):
+            raise PyRaise('TypeError')
         if isinstance(op, (ast.Is, ast.IsNot)):
             if r is None or l is None:
                 res = l is None and r is None
@@ -262,6 +272,12 @@ class Interp:
             raise AnalysisError('%s: assignment target outside the affine vocabulary: %s' % (self.site, norm(target)[:50]))
 
     def step(self, st, env, facts):
+        try:
+            return self._step(st, env, facts)
+        except PyRaise as x:
+            return [Outcome('raise', x.exc, env, facts, getattr(st, 'lineno', None))]
+
+    def _step(self, st, env, facts):
         if isinstance(st, (ast.Pass,)) or (isinstance(st, ast.Expr) and isinstance(st.value, ast.Constant)):
             return [Outcome('fall', None, env, facts, None)]
         if isinstance(st, (ast.Assign, ast.AnnAssign)):
@@ -297,4 +313,10 @@ class Interp:
             return [Outcome('raise', norm(exc) if exc is not None else '', env, facts, st.lineno)]
         if isinstance(st, ast.Assert):
             return [Outcome('fall', None, env, facts, None)]
+        if isinstance(st, ast.Expr) and isinstance(st.value, ast.Call) and self.call_hook is not None:
+            # a call for its effect: only what the hook models (it may record the effect in the environment)
+            e2 = dict(env)
+            r = self.call_hook(self, st.value, e2, facts)
+            if r is not None:
+                return [Outcome('fall', None, dict(e2), f, None) for _v, f in r]
         raise AnalysisError('%s: statement outside the affine vocabulary: %s' % (self.site, norm(st)[:60]))
